@@ -172,6 +172,15 @@ def in_leaves(tier):
                 continue
             seen.add(key)
             out.append(["In", "presence", o])
+    # 1b. every presence pattern again with 1..3 UNDECLARED keys (as many unknown keys as omitted fields, fewer, more)
+    for _b, _k, o in list(out):
+        if o.get("b") is None:
+            continue  # (the required field must be there, or the object is refused for that reason already)
+        for k in (1, 2, 3):
+            o2 = dict(o)
+            for extra in ("zz", "zy", "zx")[:k]:
+                o2[extra] = 1
+            out.append(["In", "unknown-field", o2])
     # 2. one field departs from the fully provided object, with every value of its alphabet
     for n, base in (("a", "Int"), ("b", "String"), ("e", "E")):
         for v in ALPHABET[base]:
